@@ -4,7 +4,7 @@ import ast
 from ..report import Inconclusive
 from ..gram import model as gm
 from ..py.guards import AEval, Reach, ModelError, always_raises, resolved_text, stmt_of, path_to
-from ..py.index import u, walk_shallow
+from ..py.index import u, walk_shallow, pos
 from . import common
 
 STRINGS = ["p0", "p12", "p", "", "p0_shift", "p1b", "q0", "P0", "0p", "pp1", "p-1", "p 1", "ap0", "p007", "hello"]
@@ -36,7 +36,7 @@ def run(rep, tier):
 
 
 def pkg_globals_atom(ix, mod):
-    g = ix.module_globals(mod)
+    g = ix.module_globals(mod, follow=True)
 
     def atom(node):
         if isinstance(node, ast.Name) and node.id in g and isinstance(g[node.id], ast.Call) and u(g[node.id].func) == "re.compile" and g[node.id].args and isinstance(g[node.id].args[0], ast.Constant):
@@ -130,9 +130,15 @@ def c15_1(rep, ix):
             inner = [s for s in n.body if isinstance(s, ast.If)]
             if len(inner) == 1 and len(n.body) == 1:
                 # which arm writes the value without quotes?
-                def quoted(stmts):
-                    txt = " ".join(u(x) for x in stmts)
-                    return '"{}"' in txt or "'\"{}\"'" in txt or '\\"' in txt
+                def quoted(stmts, var=var):
+                    # some string built in these statements puts the value between double quotes (any spelling of the formatting)
+                    from ..py import norm
+                    for x in stmts:
+                        for e in ast.walk(x):
+                            t = norm.canon_text(e) if isinstance(e, (ast.JoinedStr, ast.Call, ast.BinOp, ast.Constant)) else None
+                            if t is not None and '"{%s}"' % var in t:
+                                return True
+                    return False
                 if quoted(inner[0].orelse) and not quoted(inner[0].body):
                     sites.append((n, inner[0], var))
     slots = 0
@@ -142,8 +148,7 @@ def c15_1(rep, ix):
         slots += 1
         for tdm in (True, False):
             for s in STRINGS:
-                if not s:
-                    continue
+                # the empty string is an argument like any other ('""' is a STR token): it must be written quoted, not raise
                 binding = {var: s, "self.programtype['name']": "tdm" if tdm else "other", 'self.programtype["name"]': "tdm" if tdm else "other", "self._type['name']": "tdm" if tdm else "other"}
                 try:
                     got = eval_pred(ix, "program", test_if.test, binding, fn=fn)
@@ -209,7 +214,7 @@ def c15_2(rep, ix):
             want = tdm and is_p(s)
             rep.check(r == want, R, ix.site(f, st), "array %r in a %s program is %s" % (s, "tdm" if tdm else "non-tdm", "registered as a p-array" if want else "not registered"), key="reg|%s|%s" % (tdm, s))
     stores = [n for n in walk_shallow(fn) if isinstance(n, ast.Assign) and isinstance(n.targets[0], ast.Subscript) and u(n.targets[0].value) == "_VAR"]
-    rep.check(len(stores) == 1 and stores[0] in fn.body and st.lineno < stores[0].lineno, R, ix.site(f, stores[0]) if stores else ix.site(f),
+    rep.check(len(stores) == 1 and stores[0] in fn.body and pos(st) < pos(stores[0]), R, ix.site(f, stores[0]) if stores else ix.site(f),
               "the array is stored in the variable table unconditionally, after the registration", key="store after")
     # evaluator
     e = ix.func(EVAL)
@@ -233,10 +238,10 @@ def c15_2(rep, ix):
     okret = len(ret) == 1 and resolved_text(en, ret[0].value, ret[0]) == "expr.getText()"
     rep.check(okret, R, ix.site(e, t), "for a registered name the evaluator returns the name itself", key="eval return")
     chk = [s for s in body if isinstance(s, ast.If) and always_raises(s.body) and "np.ndarray" in u(s.test) and "_VAR[" in u(s.test) and u(s.test).startswith("not isinstance")]
-    rep.check(len(chk) == 1 and ret and chk[0].lineno < ret[0].lineno, R, ix.site(e, t), "before returning the name the stored value is checked to be an array (TypeError otherwise)", key="eval array check")
+    rep.check(len(chk) == 1 and ret and pos(chk[0]) < pos(ret[0]), R, ix.site(e, t), "before returning the name the stored value is checked to be an array (TypeError otherwise)", key="eval array check")
     # the test sits after the undefined-name check and before the plain value return
     plain = [s for s in walk_shallow(en) if isinstance(s, ast.Return) and resolved_text(en, s.value, s) == "_VAR[expr.getText()]"]
-    rep.check(plain and t.lineno < plain[0].lineno, R, ix.site(e, t), "other variables are returned by value after the p-array test", key="eval order")
+    rep.check(plain and pos(t) < pos(plain[0]), R, ix.site(e, t), "other variables are returned by value after the p-array test", key="eval order")
 
 
 def c15_3(rep, ix):
